@@ -127,13 +127,15 @@ def Res.isMsg : Res → Bool
   | _ => false
 
 /-- **`connect()` is, for the read path, one `read_message(timeout>0, ack=True)` of a client subscribed to nothing on
-the new connection** — plus the reset of the subscription state exactly when that read returned (the ACK). -/
+the new connection** — plus, exactly when that read returned (the ACK), the reset of the subscription state; in every
+other case the client ends disconnected from a closed socket with its sets untouched. -/
 theorem connectCall_eq (cfg : Cfg) (st : St) (w : Wire) (hw : w.pre.wf cfg = true) :
     connectCall cfg st w.sock =
       (⟨CRes.ofRes (readMessage cfg .pos true false w.pre.st).1.res, (readMessage cfg .pos true false w.pre.st).1.consumed,
-        (readMessage cfg .pos true false w.pre.st).1.connected⟩,
-       ⟨(readMessage cfg .pos true false w.pre.st).2.sock, (readMessage cfg .pos true false w.pre.st).1.connected,
-        if (readMessage cfg .pos true false w.pre.st).1.res.isMsg then noSub else subAtHandshake st⟩) := by
+        (readMessage cfg .pos true false w.pre.st).1.res.isMsg⟩,
+       if (readMessage cfg .pos true false w.pre.st).1.res.isMsg then
+         ⟨(readMessage cfg .pos true false w.pre.st).2.sock, true, noSub⟩
+       else ⟨Sock.dead, false, subAtHandshake st⟩) := by
   obtain ⟨hs, hwf, hi, hb⟩ := wf_parts hw
   have hlen := wire_fuel hw
   have hwait : ∀ sub, waitAck cfg sub (w.sock.data.length + 1) w.sock =
@@ -153,7 +155,7 @@ theorem connectCall_eq (cfg : Cfg) (st : St) (w : Wire) (hw : w.pre.wf cfg = tru
 /-- the handshake as an observation of that read -/
 def hsObs (cfg : Cfg) (w : Wire) : Obs := (readMessage cfg .pos true false w.pre.st).1
 
-def cobsOf (o : Obs) : CObs := ⟨CRes.ofRes o.res, o.consumed, o.connected⟩
+def cobsOf (o : Obs) : CObs := ⟨CRes.ofRes o.res, o.consumed, o.res.isMsg⟩
 
 theorem ofRes_lost (r : Res) : (CRes.ofRes r == .lost) = (r == .lost) := by cases r <;> rfl
 theorem ofRes_normal (r : Res) : (CRes.ofRes r).isNormal = r.isNormal := by cases r <;> rfl
@@ -188,7 +190,10 @@ theorem connOk_of_specOk (cfg : Cfg) (w : Wire) (o : Obs) (h : specOk cfg w.pre 
         cases o.res <;> cases kind cfg false (List.take cfg.hsize w.tail) <;>
           simp [resMatchesKind, cresMatchesKind, CRes.ofRes]
   · simp only [ofRes_lost, ofRes_normal]
-    exact hlost
+    revert hlost
+    cases o.res <;> simp [Res.isMsg, CRes.ofRes, Res.isNormal]
+    intro _ h1 h2 h3
+    exact ⟨⟨h1, h2⟩, h3⟩
   · rw [ofRes_crash]
     refine ⟨⟨hdoc.1, ?_⟩, ?_⟩
     · cases hr : o.res <;> simp_all [CRes.ofRes]
